@@ -357,6 +357,15 @@ class PyModel:
                 ex.raise_('TypeError', 'unhashable')
             if ex.branch(ex.heap.dhas(r, key), 'dict-has'):
                 ex.assume(ex.heap.dlen(r) >= 1)
+                tbl = getattr(ex, 'global_tables', {}).get(r.get_id())
+                if tbl is not None and len(tbl[2]) <= 16 and any(L.is_true(L.simp(L.is_Fun(v))) for _, v in tbl[2]) \
+                        and ex.check_sat(z3.Not(z3.And(ex.heap.arr('DHAS')[r] == tbl[0], ex.heap.arr('DVAL')[r] == tbl[1]))) == z3.unsat:
+                    # a small module-level dispatch table that is still as the module built it: the entry is one of
+                    # the functions written there, not a callable of unknown origin
+                    for kv, vv in tbl[2]:
+                        if ex.branch(key == kv, 'table-entry'):
+                            ex.event('elem_read', r, key, vv)
+                            return vv
                 x = ex.known(ex.heap.dval(r, key))
                 ex.assume_elem(x)
                 ex.event('elem_read', r, key, x)
@@ -500,6 +509,33 @@ class PyModel:
         r = self._unary_neg(ex, v)
         ex.event('prim', 'neg', v, r)
         return r
+
+    def unary_pos(self, ex, v):
+        v = ex.to_val(v)
+        if ex.branch(z3.Or(L.is_Int(v), L.is_Bool(v)), 'pos-int'):
+            r = L.IntV(self.num_value_int(v))
+        elif ex.branch(L.is_Dec(v), 'pos-dec'):
+            # unary plus applies the context: rounds to 28 digits
+            d = L.UF('dec_pos', I, I)(Val.d(v))
+            ex.assume(z3.And(L.dec_digits(d) >= 1, L.dec_digits(d) <= z3.If(L.dec_digits(Val.d(v)) < 28, L.dec_digits(Val.d(v)), 28)))
+            ex.may_raise(['ArithmeticError'], 'decimal signal')
+            r = L.DecV(d)
+        elif ex.branch(L.is_Float(v), 'pos-float'):
+            r = v
+        elif ex.branch(L.is_Opaque(v), 'pos-opaque'):
+            r = self.stubs.unknown_call(ex, 'pos-on-opaque', [v])
+        else:
+            ex.raise_('TypeError', 'bad operand type for unary +')
+        ex.event('prim', 'pos', v, r)
+        return r
+
+    def unary_invert(self, ex, v):
+        v = ex.to_val(v)
+        if ex.branch(z3.Or(L.is_Int(v), L.is_Bool(v)), 'inv-int'):
+            return L.IntV(-self.num_value_int(v) - 1)
+        if ex.branch(L.is_Opaque(v), 'inv-opaque'):
+            return self.stubs.unknown_call(ex, 'invert-on-opaque', [v])
+        ex.raise_('TypeError', 'bad operand type for unary ~')
 
     def _unary_neg(self, ex, v):
         if ex.branch(z3.Or(L.is_Int(v), L.is_Bool(v)), 'neg-int'):
